@@ -16,11 +16,12 @@ def run_c14(ctx: Ctx):
     pairs = props_spec.run_c14_spec(ctx)
     if not any(b["kind"] == "translation" for b in ctx.broken):
         props_spec.stream_sgen(ctx, pairs[:600], with_predicates=False)
-    try:
-        import props_marker
-        props_marker.oracle_c14_markers(ctx)
-    except ImportError:
-        ctx.notes.append("marker part of C14: oracle module not built yet")
+    import props_marker
+    import smark
+    props_spec.proof_step(ctx, "Props/C14m.v", ["C14m_closure", "C14m_law"], extra_targets=["Model/CorrMarker.v"])
+    ctx.trusted_base = BASE_TRUST + MARKER_PROOF_TRUST
+    smark.stream_smark(ctx, 40 if ctx.tier == "quick" else 600, with_parse=False, with_only=False, with_eval=True)
+    props_marker.oracle_c14_markers(ctx)
     ctx.coverage["rule"] = ("triples of canonical interval sets (as C01) for 13 laws + complement as == of returned objects; "
                             "marker part: truth-table equivalence of both sides on an environment grid")
 
@@ -92,11 +93,17 @@ PENDING = ("the Coq model of the marker normaliser is not finished: this check c
 
 REGISTRY.update({
     "C02": marker_runner(pm.oracle_c02, 500, 8000, GEN_RULE, C02_EXPL, smark_pairs=150, proof=("Props/C02.v", C02_THEOREMS)),
-    "C03": marker_runner(pm.oracle_c03, 700, 10000, GEN_RULE, PENDING),
+    "C03": marker_runner(pm.oracle_c03, 700, 10000, GEN_RULE,
+                         "theorem C03_parse: the marker _build_markers returns evaluates, in every environment, as packaging's _evaluate_markers fold (pkg_eval, verbatim) of the parsed tree, provided atoms evaluate alike; "
+                         "atom evaluation is the model parameter atom_eval (strings / extras / reversed operands modelled and compared by MCEval cases; version-like atoms a table) and is compared with packaging by the direct oracle",
+                         smark_pairs=60, proof=("Props/C03.v", ["C03_parse", "pkg_eval_peval"])),
     "C07": marker_runner(pm.oracle_c07, 300, 5000, GEN_RULE, PENDING),
     "C10": marker_runner(pm.oracle_c10, 250, 4000, "random histories of parse/&/| over key-equal spelling families followed by a probe; warm result vs result after cache_clear()", PENDING),
     "C11": marker_runner(lambda ctx, n: pm.oracle_c11(ctx), 0, 0, "every operator x operand length x variable atom, every simple specifier as from_specifier input, interpreters X.Y.Z on a grid around the operands", PENDING),
-    "C12": marker_runner(pm.oracle_c12, 250, 4000, GEN_RULE, PENDING, smark_pairs=100),
+    "C12": marker_runner(pm.oracle_c12, 250, 4000, GEN_RULE,
+                         "PARTIAL proof: C12_only_implied / C12_only_identity / C12_only_wf over Model/Marker.v (only() is implied by the marker and equivalent to it when it mentions only the kept names); "
+                         "variable containment of the result and the exclude()/without_extras() statements are decided by the direct oracle only",
+                         smark_pairs=100, proof=("Props/C12.v", ["C12_only_implied", "C12_only_identity", "C12_only_wf"])),
     "C15": marker_runner(pm.oracle_c15, 500, 8000, GEN_RULE, PENDING, smark_pairs=100),
 })
 
